@@ -289,10 +289,10 @@ func runC01(c *Ctx) {
 		}
 	}
 	// every registered command from every small planted state (buffer x cursor)
-	plantAlpha := []string{"a", " ", "\"", "\n"}
+	plantAlpha := []string{"a", " ", "\"", "\n", ")"}
 	plantL := 2
 	if !quick {
-		plantAlpha = []string{"a", " ", ".", "\"", "\n", "é", "("}
+		plantAlpha = []string{"a", " ", ".", "\"", "\n", "é", "(", ")"}
 		plantL = 3
 	}
 	bufs := c02Strings(plantAlpha, plantL)
@@ -318,7 +318,8 @@ func runC01(c *Ctx) {
 			prc, probes, seeds := plantedSeeds(m.km, part, enter)
 			arc, acts := allBoundRC(m.km)
 			cfg := base
-			cfg.RC = m.rc + arc + prc
+			// (bracket matching is display-only: turned on so that the highlighter runs on every planted state)
+			cfg.RC = m.rc + "set blink-matching-paren on\n" + arc + prc
 			cfg.Probes = probes
 			sc := &Scenario{Name: m.name + "/planted-states", Cfg: cfg, Seeds: seeds, Alphabet: acts, Depth: 1,
 				Want: harness.Want{Hash: 2, Obs: 1}, Check: check}
@@ -374,6 +375,16 @@ func runC01(c *Ctx) {
 						cfg := harness.Config{RC: modeRC(mode) + meta, W: 40, H: 12, Prompt: "$ "}
 						bjs = append(bjs, bj{fmt.Sprintf("[raw bytes] mode=%s utf8=%v bytes=%q delivery=%s", mode, meta != "", st, del), harness.Job{ID: len(bjs), Cfg: cfg, Calls: [][]harness.Answer{ans}}})
 					}
+				}
+			}
+		}
+		// a terminal that answers one cursor-position query with nonsense, then keys, an unsolicited
+		// report glued to a key, more keys: the loop must carry on and return
+		for _, mode := range []string{"emacs", "vi-insert"} {
+			for bad := 1; bad <= 4; bad++ {
+				for _, tail := range [][]string{{"a", "\x1b[5;5Rb", "\r"}, {"a", "b", "\x1b[5;5R", "\r"}, {"\t", "a", "\x1b[5;5R", "\r"}} {
+					cfg := harness.Config{RC: modeRC(mode), W: 40, H: 12, Prompt: "$ ", BadCPR: bad}
+					bjs = append(bjs, bj{fmt.Sprintf("[unusable answer to cursor query #%d] mode=%s keys=%q", bad, mode, tail), harness.Job{ID: len(bjs), Cfg: cfg, Calls: [][]harness.Answer{Keys(tail...)}}})
 				}
 			}
 		}
